@@ -48,6 +48,22 @@ CHECKS = {
            "by lxml is trusted; xs:any content excluded (open finding C04:any-content-tail-growth); namespace-prefix rewritings are not "
            "among the property's variants and are not modelled."),
  },
+ "C11": {
+  "category": "proof",
+  "technique": "Lean 4 proof over tables regenerated from nml.py and the XSD (pinned kernel-checked obligations) + exhaustive correspondence over 199 classes",
+  "design_ref": "DESIGN.md §5 C11",
+  "text": ("Generic theorems for every table: c11_parentinfo_inverse ((p, m) is reported by parentinfo of c iff m is a member of p with "
+           "type c), c11_info_eq_checkarg (info lists exactly what _check_arg_list accepts), c11_get_sound / c11_get_complete / c11_get_none / "
+           "c11_get_empty_id_document for get_by_id on documents and networks. Per-run kernel-checked obligations on the regenerated "
+           "tables, stated with the open findings PINNED so that any further disagreement breaks them: c11_info_eq_ctor_partial (info() "
+           "member names = public constructor keywords for all classes but exactly the six xs:any holders) and c11_specs_agree_xsd_partial "
+           "(every MemberSpec has the schema's type, required/optional status and single/list nature, but for exactly eight pinned entries). "
+           "Tied by an exhaustive correspondence of the real info/parentinfo/inspect.signature/_check_arg_list with the model for all 199 "
+           "classes and a get_by_id stream."),
+  "note": ("Trusted: both translators; class discovery by dir(module) modelled as the list of binding classes; _get_members order-free (set). "
+           "Open findings C11:any-holder, C11:choice-member-required, C11:member-type:ComponentType.Property are genuine and pinned in the "
+           "theorem statements."),
+ },
  "C14": {
   "category": "proof",
   "technique": "Lean 4 proof over an executable hand model + model/implementation correspondence + reference oracle",
@@ -131,7 +147,7 @@ def _from_notes(pid):
             "text": bullet("level_claimed.text") or bullet("level_claimed"), "note": bullet("level_note")}
 
 
-FROM_NOTES = ["C12", "C13", "C16", "C17", "C19", "C20"]
+FROM_NOTES = ["C05", "C12", "C13", "C16", "C17", "C19", "C20"]
 for _p in FROM_NOTES:
     try:
         CHECKS[_p] = _from_notes(_p)
